@@ -622,7 +622,9 @@ def run(ctx):
                 "open iterators validated by Trace_C02; histories in which calls are interrupted by a KeyboardInterrupt inside the "
                 "class's code and the caller goes on (model: action Interrupted, every level and every subset of extended members; "
                 "the design that registers a level before filling it is refuted); membership of permutations of a thousand entries "
-                "on fresh class objects judged by the definition")
+                "on fresh class objects judged by the definition; levels 7-12 of slowly growing classes checked step by step "
+                "(every avoiding extension of a member of level n by a last entry is a listed member of level n+1, listed members are "
+                "distinct avoiders); random histories recorded in an interpreter whose hashes collide")
 
 
 import threading
